@@ -1332,6 +1332,15 @@ class Exec:
 
     def s_Assert(self, t, st):
         c = self.truth(self.ev(t.test, st), st)
+        if self.call_depth == 0 and 'AssertionError' in getattr(self, 'allowed_exc', ()):
+            # the contract lists AssertionError as a possible outcome: the assertion is a branch, not an obligation
+            if c is True:
+                return [(st, 'next', None)]
+            if c is False:
+                return [(st, 'raise', 'AssertionError')]
+            s2 = st.fork(); s2.assume(NOT(c))
+            st.assume(c)
+            return [(s2, 'raise', 'AssertionError'), (st, 'next', None)]
         self.oblige(st, 'assert', c, t)
         if c is False:
             return [(st, 'raise', 'AssertionError')]
